@@ -99,6 +99,15 @@ func buildCalls(seed uint64, env *psEnv) []callSpec {
 		progs := progs
 		add(fmt.Sprintf("Probe/operands#%d", vi), func() string { return runBatch(env, progs) })
 	}
+	// every operator found at run time, whatever it returns (a mode or a counter
+	// kept outside the interpreter instance shows in a scalar result)
+	for vi, args := range []string{"", "1", "true", "(x)", "1 2", "/a 1"} {
+		var progs []string
+		for _, k := range systemDictKeys() {
+			progs = append(progs, args+" "+k, args+" "+k+" "+k)
+		}
+		add(fmt.Sprintf("Probe/every-operator#%d", vi), func() string { return runBatch(env, progs) })
+	}
 	// the same programs one by one, with and without the writes, for the concurrent workload
 	for _, scribble := range []bool{false, true} {
 		for vi, progs := range scribblePrograms(scribble) {
@@ -259,6 +268,30 @@ func runBatch(env *psEnv, progs []string) string {
 	return sha([]byte(sb.String()))
 }
 
+// systemDictKeys returns the names found in a fresh instance's systemdict.
+func systemDictKeys() []string {
+	probe := postscript.NewInterpreter()
+	var keys []string
+	for k := range probe.SystemDict {
+		keys = append(keys, string(k))
+	}
+	sort.Strings(keys)
+	return keys
+}
+
+// c18CallEveryOperator calls every operator found at run time with operands
+// that would switch a mode or move a counter, each in an instance of its own.
+func c18CallEveryOperator(rng *rand.Rand) {
+	tuples := []string{"true", "false", "1", "7", "(x)", "/n", "1 2", "true true", "/n true", "(x) 3", "[ 1 ]", "2 dict", ""}
+	for _, k := range systemDictKeys() {
+		for i := 0; i < 3; i++ {
+			intp := postscript.NewInterpreter()
+			intp.MaxOps = 20000
+			intp.ExecuteString(tuples[rng.IntN(len(tuples))] + " " + k)
+		}
+	}
+}
+
 // hostilePrograms returns programs that try to damage shared state.
 func hostilePrograms(rng *rand.Rand) []string {
 	probe := postscript.NewInterpreter()
@@ -402,6 +435,9 @@ func c18RunHistory(rng *rand.Rand) []string {
 			// a second program on the same damaged instance
 			intp.ExecuteString("1 2 add")
 		}
+	}
+	if rng.IntN(2) == 0 {
+		c18CallEveryOperator(rng)
 	}
 	return progs
 }
